@@ -7,6 +7,7 @@ import (
 	tq "github.com/facebookincubator/tacquito"
 	"verif/h/gen"
 	"verif/h/mon"
+	"verif/h/refsrv"
 	"verif/h/rfc8907"
 	"verif/h/simnet"
 )
@@ -222,6 +223,37 @@ func runC06(b *mon.B) {
 		fl := r.Pick(0, 1, 4, 5, r.Intn(256))
 		one(rfc8907.Header{Major: 0xc, Minor: r.Intn(2), Type: 1 + r.Intn(3), Seq: 1 + 2*r.Intn(128), Flags: fl, Session: r.U32()}, kind)
 	}
+	// ---- Response.Write with a header copied from the request: the writer must still announce
+	// the number of body bytes that really follow
+	for k := 0; k < b.N(40, 800); k++ {
+		caseNo++
+		if !b.Want(caseNo) {
+			continue
+		}
+		kind := replyKinds[r.Pick(0, 2, 3, 4, 5, 6)]
+		rep := kind.Make(r)
+		wantClear, _ := rep.MarshalBinary()
+		h := rfc8907.Header{Major: 0xc, Minor: r.Intn(2), Type: 1 + r.Intn(3), Seq: 1 + 2*r.Intn(127), Flags: r.Pick(0, 1, 4, 5), Session: r.U32()}
+		srv.Plan.set(h.Session, planStep{Reply: rep, UseWrite: true})
+		reqBody := c05Body(r, h.Type, r.Pick(0, 5, 8, 20, 83, 300, 5000), false)
+		written, stray, _, st, err := srv.step(conn, pktSpec{H: h, Clear: reqBody}.wire(secret))
+		if err != nil {
+			b.Inconclusive("write-path case: %v", err)
+			break
+		}
+		b.Eval(1)
+		b.Class("response-write/type%d/req%s/reply%s", h.Type, lenBucket(len(reqBody)), lenBucket(len(wantClear)))
+		if slug, msg := checkReply(h, secret, kind, wantClear, written, stray); slug != "" {
+			b.Violate(caseNo, "C06/response-write/"+slug, fmt.Sprintf("reply sent through Response.Write with a header copied from the request (request body %d bytes, reply body %d bytes): %s", len(reqBody), len(wantClear), msg),
+				map[string]interface{}{"request_header": hexs(h.Encode()), "request_body_len": len(reqBody), "reply_body_len": len(wantClear)})
+		} else {
+			b.Count("response_write_replies_conforming", 1)
+		}
+		if st.Closed {
+			conn = srv.dial(4000+reconnects, secret)
+			reconnects++
+		}
+	}
 	// ---- a first reply that cannot be sent, then a fallback reply: the fallback is THE
 	// reply to the request and must be numbered request+1
 	unsendable := []struct {
@@ -300,4 +332,64 @@ func runC06(b *mon.B) {
 		b.Count("full_sequence_walks", 1)
 	}
 	_ = simnet.KWrite
+	c06Reference(b, r, &caseNo)
+}
+
+// c06Reference feeds the replies of the REFERENCE server (every handler path of the recipes)
+// through the same raw-header oracle.
+func c06Reference(b *mon.B, r *gen.R, caseNo *int) {
+	sc := richConfig(r, 1)
+	ref, err := refsrv.Start(sc.Cfg, refsrv.Options{Keys: sc.Keys})
+	if err != nil {
+		b.Inconclusive("reference configuration did not load: %v", err)
+		return
+	}
+	defer ref.Close()
+	ref.Net.SetKeepLog(false)
+	key := []byte(sc.Scopes[0].Key)
+	for k := 0; k < b.N(150, 4000); k++ {
+		*caseNo++
+		rcp := pickRecipe(r, sc)
+		if !b.Want(*caseNo) {
+			continue
+		}
+		rc := newRefConn(ref, k%60000+1, key)
+		sid := r.U32()
+		flagsExtra := r.Pick(0, 0, 4, 0x10, 0xf4)
+		for i, p := range rcp.Pkts {
+			h := rfc8907.Header{Major: 0xc, Minor: p.Minor, Type: p.Type, Seq: 1 + 2*i, Flags: p.Flags | flagsExtra, Session: sid}
+			if rcp.Name != "ascii" && rcp.Name != "pap-minor1" && r.Chance(1, 3) {
+				h.Minor = 1 - h.Minor // supported and unsupported minor versions alike are mirrored
+			}
+			res := rc.send(h, p.Body, p.WellFormed)
+			if res.Err != nil || res.Verdict != "accept" {
+				break
+			}
+			b.Eval(1)
+			b.Class("reference/%s/minor%d/flags%#x", pathOf(p.Label), h.Minor, flagsExtra)
+			for _, rp := range res.Replies {
+				want := h
+				want.Seq = h.Seq + 1
+				if rp.Value != nil && h.Type == 1 && rp.status() == 6 {
+					want.Seq = 1
+				}
+				want.Length = uint32(len(rp.Raw) - 12)
+				if !bytes.Equal(rp.Raw[:12], want.Encode()) {
+					names := []string{"version", "type", "seq", "flags", "session", "session", "session", "session", "length", "length", "length", "length"}
+					off := firstDiff(rp.Raw[:12], want.Encode())
+					b.Violate(*caseNo, "C06/reference-server/header-"+names[off], fmt.Sprintf("reference server, %s: reply header %x does not mirror the request header %x", p.Label, rp.Raw[:12], h.Encode()),
+						map[string]interface{}{"request": p.Label, "request_header": hexs(h.Encode()), "reply_header": hexs(rp.Raw[:12])})
+				} else {
+					b.Count("reference_server_replies_mirroring", 1)
+				}
+			}
+			if res.State.Closed {
+				break
+			}
+		}
+		if !rc.c.Closed() {
+			rc.c.EOF()
+		}
+		ref.Net.Forget(rc.c)
+	}
 }
